@@ -148,13 +148,18 @@ fn pick_tsn(rng: &mut Rng, cum: u32) -> u32 {
     }
 }
 
+/// stream sequence numbers: small values (in order / small gaps) and the 16-bit boundaries
+fn pick_ssn(rng: &mut Rng) -> u16 {
+    match rng.below(8) { 0..=4 => rng.below(5) as u16, 5 => *rng.pick(&[0x7FFFu16, 0x8000, 0xFFFE, 0xFFFF]), 6 => 0xFFFF, _ => rng.next() as u16 }
+}
+
 fn gen_data_chunk(rng: &mut Rng, out: &mut Vec<u8>, tsn: u32) {
     let sid = rng.below(4) as u16;
     let (ppid, body) = match rng.below(6) {
         0 | 1 => (50u32, dcep_open(rng)), 2 => (50, if rng.chance(1, 2) { vec![2] } else { vec![] }), 3 => (50, vec![*rng.pick(&[0u8, 1, 4, 0xFF])]),
         _ => { let n = rng.below(24) as usize; (*rng.pick(&[51u32, 53, 0, 56]), rng.bytes(n)) }
     };
-    let mut v = data_value(tsn, sid, rng.below(3) as u16, ppid, &body);
+    let mut v = data_value(tsn, sid, pick_ssn(rng), ppid, &body);
     if rng.chance(1, 12) { let n = v.len(); v.truncate(rng.below(n as u64 + 1) as usize); }       // framed truncation (value < 12 bytes included)
     chunk(out, 0, rng.below(8) as u8, &v);
 }
@@ -183,7 +188,12 @@ fn gen_packet(rng: &mut Rng, cum: u32, cookies: &[Vec<u8>], req_sn: &mut u32, pe
                 if rng.chance(1, 6) { let n = v.len(); v.truncate(rng.below(n as u64 + 1) as usize); }
                 chunk(&mut p, 3, 0, &v); }
             13 | 14 => { let new = match rng.below(5) { 0 => cum, 1 => cum.wrapping_sub(1), 2 => cum.wrapping_add(0x8000_0000), _ => cum.wrapping_add(rng.range(1, 4) as u32) };
-                let mut v = new.to_be_bytes().to_vec(); for _ in 0..rng.below(3) { v.extend_from_slice(&(rng.below(4) as u16).to_be_bytes()); v.extend_from_slice(&(rng.below(5) as u16).to_be_bytes()); }
+                let mut v = new.to_be_bytes().to_vec();
+                if rng.chance(1, 3) {
+                    // one stream walked up to the 16-bit boundary in serial-number steps (each step < 2^15)
+                    let sid = rng.below(4) as u16;
+                    for ssn in *rng.pick(&[&[0x7000u16, 0xE000, 0xFFFF][..], &[0x7FFF, 0xFFFE, 0xFFFF, 0], &[0x4000, 0x8000, 0xC000, 0xFFFF, 0x3FFF], &[0xFFFF]]) { v.extend_from_slice(&sid.to_be_bytes()); v.extend_from_slice(&ssn.to_be_bytes()); }
+                } else { for _ in 0..rng.below(3) { v.extend_from_slice(&(rng.below(4) as u16).to_be_bytes()); v.extend_from_slice(&pick_ssn(rng).to_be_bytes()); } }
                 if rng.chance(1, 5) { v.push(9); } if rng.chance(1, 8) { v.truncate(rng.below(4) as usize); }
                 chunk(&mut p, 192, 0, &v); }
             15 | 16 => { let mut v = vec![];
@@ -286,7 +296,8 @@ pub fn run_session(run: &mut Run, rng: &mut Rng, is_client: bool, closed0: bool,
 /// kind 0: DATA with a TSN gap that is never filled (`received_queue`), `size`-byte payloads; 1: in-order first/middle fragments of a
 /// message that never ends (`reassembly_buffer`); 2: DCEP OPEN on a new stream each time (`data_channels`, the channels are kept
 /// alive as the PeerConnection does); 3: ordered messages with SSN ahead of the expected one (`InboundStream.pending`);
-/// 4: a fragmented DCEP message that never ends (`dcep_reassembly`).
+/// 4: a fragmented DCEP message that never ends (`dcep_reassembly`); 5: 20·count complete in-order messages on one ordered channel
+/// (the stream sequence number wraps; nothing may be retained).
 /// Oracle: retained ≤ 16·bytes received + 64 KiB, and every packet handled within the per-call deadline.
 pub fn run_flood(run: &mut Run, kind: u8, count: u32, size: usize) {
     let case = format!("sctpflood {kind} {count} {size}");
@@ -312,6 +323,8 @@ pub fn run_flood(run: &mut Run, kind: u8, count: u32, size: usize) {
                 1 => chunk(&mut p, 0, if k == 0 { 2 } else { 0 }, &data_value(102 + k, 0, 0, 53, &body)),
                 2 => { let mut open = vec![3u8, 0, 0, 0, 0, 0, 0, 0, 0, 1, 0, 0]; open.push(b'l'); chunk(&mut p, 0, 3, &data_value(102 + k, ((k + 2) % 65536) as u16, 0, 50, &open)) }
                 4 => chunk(&mut p, 0, if k == 0 { 6 } else { 4 }, &data_value(102 + k, 0, 0, 50, &body)),
+                // 20 complete ordered messages per packet, SSNs in order from 1 (the OPEN used 0): the 16-bit SSN wraps after 65 535
+                5 => for j in 0..20u32 { let i = k * 20 + j; chunk(&mut p, 0, 3, &data_value(102 + i, 0, (i + 1) as u16, 53, &body)); },
                 _ => chunk(&mut p, 0, 3, &data_value(102 + k, 1, (k + 1) as u16, 53, &body)),
             }
             crc_fix(&mut p);
@@ -333,7 +346,7 @@ pub fn run_flood(run: &mut Run, kind: u8, count: u32, size: usize) {
     run.count_n(&format!("sctpflood:queue_len:{kind}:{size}"), snap.received_queue.len() as u64);
     run.count(&format!("sctpflood:connected:{connected}"));
     if retained > 16 * bytes_in + 65536 {
-        run.fail(&format!("retain:SctpInner::handle_packet:{}", ["tsn-gap", "endless-fragments", "dcep-open-per-stream", "ssn-gap", "endless-dcep-fragments"][if kind == 4 { 4 } else { kind.min(3) as usize }]), &case,
+        run.fail(&format!("retain:SctpInner::handle_packet:{}", ["tsn-gap", "endless-fragments", "dcep-open-per-stream", "ssn-gap", "endless-dcep-fragments", "in-order-messages"][if kind >= 4 { kind.min(5) as usize } else { kind.min(3) as usize }]), &case,
             &format!("{retained} bytes retained after {count} packets ({bytes_in} bytes received)"));
     }
     if slowest > std::time::Duration::from_secs(2) { run.fail("hang:SctpInner::handle_packet(flood)", &case, &format!("slowest packet took {slowest:?}")); }
@@ -344,6 +357,7 @@ fn r_is_ok(fails: &[crate::OracleFail], case: &str) -> bool { !fails.iter().any(
 pub fn special(run: &mut Run, rng: &mut Rng, thorough: bool) {
     let k = if thorough { 30_000 } else { 3_000 };
     for (kind, size) in [(0u8, 1usize), (0, 1100), (1, 1), (1, 1100), (2, 0), (3, 1), (3, 1100), (4, 1), (4, 1100)] { run_flood(run, kind, k, size); }
+    run_flood(run, 5, 3_400, 1);                           // 68 000 in-order messages on one ordered channel: SSN wrap-around
     let n = if thorough { 30_000 } else { 1_500 };
     for i in 0..n { run_session(run, rng, i % 5 == 4, false, None, true); }   // (`new_verif_link` now always hands out a New association)
 }
